@@ -1,11 +1,14 @@
 // ---- prelude/markdel_decl.rs: InnerBucket::mark_deleted as seen by unit bucketops (ASSUMED here) ----
 // Its real body is PROVED in unit markdel against the stronger contract (#marked, #everything-open-below-marked,
-// #only-the-flag-changes), which needs the cell model with fin() (prelude/cell_fin.rs); this unit uses the two clauses it can state.
+// #only-the-flag-changes), which needs the cell model with fin() (prelude/cell_fin.rs); declared here with the same three clauses.
 impl<'b> InnerBucket<'b> {
     #[verifier::external_body]
     fn mark_deleted(&mut self)
+        requires
+            bucket_wf(*old(self)),
         ensures
             final(self).deleted,
+            forall|n: nat| #[trigger] marked_below(*final(self), n),
             final(self).meta == old(self).meta && final(self).dirty == old(self).dirty && final(self).muts@ == old(self).muts@
                 && final(self).tree@ == old(self).tree@ && final(self).puts@ == old(self).puts@ && final(self).depth@ == old(self).depth@
                 && final(self).buckets == old(self).buckets,
